@@ -7,8 +7,11 @@ import FP.Model.Basic
   (bit variables, `int_eq` row, per-bit `binProd`, `prod_eq` row)
 * `piecewise` — `add_piecewise_constant_constraint` (one-hot `z`, big-M rows, `M = 2(max U − min L)`)
 * `WState`/`WOp`/`wstep` — the state machine of columns, queued bound updates and objective
-  (`add_variables`, `queue_fix_variable`, `queue_set_var_lower_bound`, `set_objective`,
-  `optimize` = flush of the queues).
+  (`add_variables`, `queue_fix_variable`, `queue_set_var_lower_bound`, `set_objective` = costs, objective
+  constant (offset) and sense, `optimize` = flush of the queues followed by a solve of the box model).
+* `boxOptimum`/`solveBox` — what a solve of a model without rows (a box with a linear objective) yields;
+  `readValues`/`getValues`/`getObjectiveValue` — `get_values` (index lookup in the solution vector of the
+  last solve) and `get_objective_value`; `wsnaps` — the states observed right after every `optimize`.
 
 HiGHS calls are modelled by what they are documented to do (`changeColsBounds` sets both
 bounds, `changeColsCost` sets costs); `getColsOrder` is the parameter that tells which components
@@ -91,18 +94,36 @@ structure WCol where
   cost : Rat
   deriving Repr, DecidableEq, Inhabited
 
+/-- what the backend holds after `Highs.optimize()` on a model without rows: the model status, and for an
+optimal solve the solution vector (`allVariableValues`) and the objective value (`getObjectiveValue`) -/
+inductive Solve where
+  | infeasible
+  | optimal (x : List Rat) (obj : Rat)
+  deriving Repr, DecidableEq, Inhabited
+
 structure WState where
   cols : List WCol := []
   pendingFix : List (Nat × Rat) := []
   pendingLb : List (Nat × Rat) := []
+  /-- objective constant (`HighsLp.offset_`, set by `changeObjectiveOffset`) -/
+  offset : Rat := 0
+  /-- objective sense (`changeObjectiveSense`); `false` = minimise (the default of HiGHS and of the wrapper) -/
+  maximize : Bool := false
+  /-- result of the last `optimize()`; `none` = never solved -/
+  last : Option Solve := none
+  /-- number of `optimize()` calls so far -/
+  nSolves : Nat := 0
   deriving Repr, Inhabited
 
 inductive WOp where
   | addVars (bounds : List (Rat × Rat))          -- add_variables
   | queueFix (idx : Nat) (v : Rat)               -- queue_fix_variable
   | queueLb (idx : Nat) (v : Rat)                -- queue_set_var_lower_bound
-  | setObjective (terms : List (Nat × Rat))      -- set_objective (expression with possibly repeated vars)
-  | optimize                                     -- flush of the queues
+  /-- `set_objective(expr, sense)`: `terms` = the (index, coefficient) pairs of the expression (possibly with
+  repeated variables), `const` = `expr.constant` (`none` when the expression has no constant term),
+  `maximize` = `sense in ["maximize", "max"]` -/
+  | setObjective (terms : List (Nat × Rat)) (const : Option Rat := none) (maximize : Bool := false)
+  | optimize                                     -- flush of the queues, then solve
   deriving Repr, Inhabited
 
 def setBounds (cols : List WCol) (i : Nat) (lb ub : Rat) : List WCol :=
@@ -125,7 +146,7 @@ def flush (f : GetColsField) (s : WState) : WState :=
   let ubs := s.pendingLb.map (fun (iv : Nat × Rat) => fieldOf f (cols1.getD iv.1 default))
   let cols2 := (s.pendingLb.zip ubs).foldl
       (fun cs (ivu : (Nat × Rat) × Rat) => setBounds cs ivu.1.1 ivu.1.2 ivu.2) cols1
-  { cols := cols2, pendingFix := [], pendingLb := [] }
+  { s with cols := cols2, pendingFix := [], pendingLb := [] }
 
 def setObjective (cols : List WCol) (terms : List (Nat × Rat)) : List WCol :=
   let zeroed := cols.map (fun c => { c with cost := 0 })
@@ -133,13 +154,84 @@ def setObjective (cols : List WCol) (terms : List (Nat × Rat)) : List WCol :=
   (List.range zeroed.length).zip zeroed |>.map fun (i, c) =>
     { c with cost := ((terms.filter (·.1 = i)).map (·.2)).sum }
 
+/-- `changeObjectiveOffset(expr.constant or 0.0)`: an expression without a constant term sets the offset `0` -/
+def offsetOf (const : Option Rat) : Rat := const.getD 0
+
+/-- the column indices (`highs_var.index`) of the variables a call `add_variables(indexes, …)` returns, in
+the order of `indexes`: `addVariables` appends the new columns, the `k`-th new variable is column `numCol + k` -/
+def addVarsHandles (s : WState) (bounds : List (Rat × Rat)) : List Nat :=
+  List.range' s.cols.length bounds.length
+
+/-! ### solve of a model without rows, read-back -/
+
+/-- the value an optimal solution takes on a column whose optimal value is determined: the lower bound if
+moving up makes the objective worse, the upper bound if moving down does (for a cost-`0` column every value of
+`[lb, ub]` is optimal; `lb` is the representative chosen here) -/
+def colOpt (maximize : Bool) (c : WCol) : Rat :=
+  if maximize then (if 0 < c.cost then c.ub else c.lb) else (if c.cost < 0 then c.ub else c.lb)
+
+def boxOptimum (maximize : Bool) (cols : List WCol) : List Rat := cols.map (colOpt maximize)
+
+def boxFeasible (cols : List WCol) : Bool := cols.all (fun c => decide (c.lb ≤ c.ub))
+
+/-- `Σ cost·x + offset` -/
+def objValue (cols : List WCol) (offset : Rat) (x : List Rat) : Rat :=
+  ((cols.zip x).map (fun cx => cx.1.cost * cx.2)).sum + offset
+
+/-- the optimal value of the column is the same in every optimal solution -/
+def colDetermined (c : WCol) : Bool := decide (c.cost ≠ 0) || decide (c.lb = c.ub)
+
+/-- `Highs.optimize()` on the columns, objective constant and sense of the state -/
+def solveBox (maximize : Bool) (cols : List WCol) (offset : Rat) : Solve :=
+  if boxFeasible cols then
+    .optimal (boxOptimum maximize cols) (objValue cols offset (boxOptimum maximize cols))
+  else .infeasible
+
+/-- the entries of the solution vector that every optimal solution shares (`none`: not determined) -/
+def expectedValues (maximize : Bool) (cols : List WCol) : List (Option Rat) :=
+  cols.map (fun c => if colDetermined c then some (colOpt maximize c) else none)
+
+/-- the loop of `get_values`: `result[key] = all_vals[var.index]` for every `(key, var)` of `variables.items()`,
+in that order; an index outside the vector raises (`IndexError`) -/
+def readValues {κ : Type} (x : List Rat) (asked : List (κ × Nat)) : Option (List (κ × Rat)) :=
+  asked.mapM (fun kv => (x[kv.2]?).map (fun v => (kv.1, v)))
+
+/-- `get_values(variables)` after an optimal solve: `get_all_variable_values()` is the solution vector of the
+last solve. (`none` also when there is no optimal solve to read from: what HiGHS keeps then is not modelled.) -/
+def getValues {κ : Type} (s : WState) (asked : List (κ × Nat)) : Option (List (κ × Rat)) :=
+  match s.last with
+  | some (.optimal x _) => readValues x asked
+  | _ => none
+
+/-- `get_objective_value()` after an optimal solve -/
+def getObjectiveValue (s : WState) : Option Rat :=
+  match s.last with
+  | some (.optimal _ obj) => some obj
+  | _ => none
+
 def wstep (f : GetColsField) (s : WState) : WOp → WState
   | .addVars bs => { s with cols := s.cols ++ bs.map (fun b => { lb := b.1, ub := b.2, cost := 0 }) }
   | .queueFix i v => { s with pendingFix := s.pendingFix ++ [(i, v)] }
   | .queueLb i v => { s with pendingLb := s.pendingLb ++ [(i, v)] }
-  | .setObjective ts => { s with cols := setObjective s.cols ts }
-  | .optimize => flush f s
+  | .setObjective ts const mx =>
+    { s with cols := setObjective s.cols ts, offset := offsetOf const, maximize := mx }
+  | .optimize =>
+    let s' := flush f s
+    { s' with last := some (solveBox s'.maximize s'.cols s'.offset), nSolves := s.nSolves + 1 }
 
 def wrun (f : GetColsField) (ops : List WOp) : WState := ops.foldl (wstep f) {}
+
+def WOp.isOptimize : WOp → Bool
+  | .optimize => true
+  | _ => false
+
+/-- the states right after every `optimize` of a history (what a caller that reads back after each solve sees) -/
+def wsnapsFrom (f : GetColsField) : WState → List WOp → List WState
+  | _, [] => []
+  | s, o :: rest =>
+    let s' := wstep f s o
+    if o.isOptimize then s' :: wsnapsFrom f s' rest else wsnapsFrom f s' rest
+
+def wsnaps (f : GetColsField) (ops : List WOp) : List WState := wsnapsFrom f {} ops
 
 end FP
